@@ -227,8 +227,18 @@ func processorScenario(kind string, n int, c int) *explore.Scenario {
 		}
 		var invs []inv
 		subs := map[string]*hx.ScriptSub{}
+		// the transport may deliver messages whose context already carries values, among them the "original
+		// message" of whoever published them (a context-preserving Pub/Sub, the forwarder): the handler must
+		// still see the message it is handling
+		foreignCtx := vs.Choose(2, 0, "delivered context already carries another original message") == 1
+		foreign := message.NewMessage("foreign-original", []byte("{}"))
 		mkSub := func(key string) *hx.ScriptSub {
 			s := hx.NewScriptSub(key, map[string][]*message.Message{"topic": script})
+			if foreignCtx {
+				s.CtxFor = func(ctx context.Context, m *message.Message) context.Context {
+					return cqrs.CtxWithOriginalMessage(ctx, foreign)
+				}
+			}
 			subs[key] = s
 			return s
 		}
